@@ -121,6 +121,7 @@ structure VInfo where
   prerelease : Bytes := []
   metadata : Bytes := []
   archOverride : Bytes := []     -- Deb.Arch / RPM.Arch / … of the format at hand
+  platform : Bytes := []         -- Info.Platform (nfpm.WithDefaults makes it "linux" when unset)
 deriving DecidableEq, Repr
 
 /-- the version part of nfpm.WithDefaults (after the empty-version default) -/
@@ -209,9 +210,17 @@ def trimLeftSet (p : UInt8 → Bool) : Bytes → Bytes
 def archValidPkgName (s : Bytes) : Bytes :=
   trimLeftSet (fun c => c == minus || c == dot) (s.filter archValidChar)
 
+/-- the deb control template: `{{ if ne .Info.Platform "linux"}}{{ .Info.Platform }}-{{ end }}{{.Info.Arch}}` -/
+def debControlArch (i : VInfo) : Bytes :=
+  (if i.platform ≠ b!"linux" then i.platform ++ [minus] else []) ++ targetArch Generated.archMap_deb i
+
+/-- deb.ConventionalFileName (after fix 34d43d4): the platform prefix of the control file, when a platform is set -/
+def debNameArch (i : VInfo) : Bytes :=
+  (if i.platform ≠ [] && i.platform ≠ b!"linux" then i.platform ++ [minus] else []) ++ targetArch Generated.archMap_deb i
+
 /-- ConventionalFileName of each packager (`i` after WithDefaults) -/
 def debFileName (i : VInfo) : Bytes :=
-  i.name ++ underscore :: debVersion false i ++ underscore :: targetArch Generated.archMap_deb i ++ b!".deb"
+  i.name ++ underscore :: debVersion false i ++ underscore :: debNameArch i ++ b!".deb"
 def ipkFileName (i : VInfo) : Bytes :=
   i.name ++ underscore :: debVersion false i ++ underscore :: targetArch Generated.archMap_ipk i ++ b!".ipk"
 def rpmFileName (i : VInfo) : Bytes :=
